@@ -72,6 +72,7 @@ type zzFactory struct {
 	faults  bool
 	partial bool // some assign call returned addresses together with an error
 	loadOK  bool
+	onLoad  func() // called at the instant the metadata snapshot is taken
 	load4   []netip.Addr
 	load6   []netip.Addr
 	cloud4  map[netip.Addr]bool // addresses the cloud holds for the ENI (ghost)
@@ -195,6 +196,9 @@ func (f *zzFactory) DeleteNetworkInterface(eniID string) error {
 	return nil
 }
 func (f *zzFactory) LoadNetworkInterface(mac string) ([]netip.Addr, []netip.Addr, error) {
+	if f.onLoad != nil {
+		f.onLoad()
+	}
 	if !f.loadOK {
 		return nil, nil, errZZCloud
 	}
